@@ -14,10 +14,10 @@ import (
 )
 
 type deferred struct {
-	call  *ssa.Defer
-	fnv   Value
-	args  []Value
-	recv  Value // for invoke-mode
+	call *ssa.Defer
+	fnv  Value
+	args []Value
+	recv Value // for invoke-mode
 }
 
 type frame struct {
@@ -620,6 +620,10 @@ func (e *Engine) execValue(fr *frame, st *State, regs map[ssa.Value]Value, v ssa
 		if name == "" {
 			name = "alloc"
 		}
+		if at, ok := et.Underlying().(*types.Array); ok && isByte(at.Elem()) {
+			o := e.allocBytes(st, int(at.Len()), true, name)
+			return mkPtr(c, o, Sel{I: 0})
+		}
 		o := e.allocVal(st, et, e.zero(et), name)
 		return mkPtr(c, o)
 	case *ssa.BinOp:
@@ -750,7 +754,13 @@ func (e *Engine) indexAddr(st *State, base Value, idx smt.Term, baseT, idxT type
 				e.fail(st, a.G, "nopanic:nil-deref", where)
 				continue
 			}
-			np := append(append([]Sel{}, a.Path...), mkSel(i64))
+			var np []Sel
+			if a.Obj.Kind == KBytes {
+				np = append([]Sel{}, a.Path...)
+				np[len(np)-1] = addSelT(c, np[len(np)-1], i64)
+			} else {
+				np = append(append([]Sel{}, a.Path...), mkSel(i64))
+			}
 			out.Alts = append(out.Alts, PtrAlt{G: a.G, Obj: a.Obj, Path: np})
 		}
 		if len(out.Alts) == 0 {
@@ -826,7 +836,11 @@ func (e *Engine) sliceOp(st *State, base Value, baseT types.Type, lo, hi, mx Val
 				e.fail(st, a.G, "nopanic:nil-deref", where)
 				continue
 			}
-			out.Alts = append(out.Alts, PtrAlt{G: a.G, Obj: a.Obj, Path: append(append([]Sel{}, a.Path...), Sel{I: 0})})
+			if a.Obj.Kind == KBytes {
+				out.Alts = append(out.Alts, a)
+			} else {
+				out.Alts = append(out.Alts, PtrAlt{G: a.G, Obj: a.Obj, Path: append(append([]Sel{}, a.Path...), Sel{I: 0})})
+			}
 		}
 		p, ln, cp = out, n, n
 	default:
@@ -999,12 +1013,18 @@ func (e *Engine) binop(st *State, op token.Token, a, b Value, at, bt types.Type,
 			return IntV{c.Mul(xt, yt)}
 		case token.QUO:
 			e.fail(st, c.Eq(yt, c.BV(0, w)), "nopanic:divide-by-zero", where)
+			if q, _, ok := e.divConst(xt, yt, signed); ok {
+				return IntV{q}
+			}
 			if signed {
 				return IntV{c.SDiv(xt, yt)}
 			}
 			return IntV{e.udivHint(xt, yt, false)}
 		case token.REM:
 			e.fail(st, c.Eq(yt, c.BV(0, w)), "nopanic:divide-by-zero", where)
+			if _, r, ok := e.divConst(xt, yt, signed); ok {
+				return IntV{r}
+			}
 			if signed {
 				return IntV{c.SRem(xt, yt)}
 			}
@@ -1167,6 +1187,63 @@ func (e *Engine) opaqueString() StringV {
 	}
 	e.globalVals[o] = &Bytes{N: 0, Cells: map[int]smt.Term{}, Zero: true}
 	return StringV{P: mkPtr(c, o, Sel{I: 0}), Len: c.BV(0, 64)}
+}
+
+// divConst encodes division/remainder of a symbolic x by a constant that is not a power of two
+// with fresh quotient/remainder variables and their defining constraints (x = q*c + r, range of
+// r and q). The constraints determine q and r uniquely, so the encoding is equivalent to the
+// bvudiv/bvsdiv circuit but needs only a constant multiplication, which all back ends decide.
+func (e *Engine) divConst(x, y smt.Term, signed bool) (smt.Term, smt.Term, bool) {
+	c := e.C
+	if x.IsConst() || !y.IsConst() || y.Val == 0 {
+		return nil, nil, false
+	}
+	w := x.W
+	cv := y.Val
+	if signed {
+		if y.SVal() <= 0 {
+			return nil, nil, false
+		}
+	}
+	if cv&(cv-1) == 0 {
+		return nil, nil, false // power of two: the native circuit is cheap
+	}
+	key := fmt.Sprintf("%d/%d/%v", x.ID, cv, signed)
+	if e.divCache == nil {
+		e.divCache = map[string][2]smt.Term{}
+	}
+	if qr, ok := e.divCache[key]; ok {
+		return qr[0], qr[1], true
+	}
+	q := c.Fresh("divq", w)
+	r := c.Fresh("divr", w)
+	zero := c.BV(0, w)
+	eq := c.Eq(x, c.Add(c.Mul(q, y), r))
+	var def smt.Term
+	if signed {
+		maxv := uint64(1)<<(uint(w)-1) - 1
+		qmax := c.BV(maxv/cv, w)
+		qmin := c.Neg(qmax)
+		if cv == 1 {
+			qmin = c.BV(uint64(1)<<(uint(w)-1), w)
+		}
+		pos := c.And(c.Sle(zero, r), c.Slt(r, y), c.Sle(zero, q), c.Sle(q, qmax))
+		neg := c.And(c.Slt(c.Neg(y), r), c.Sle(r, zero), c.Sle(qmin, q), c.Sle(q, zero))
+		def = c.And(eq, c.Ite(c.Sle(zero, x), pos, neg))
+	} else {
+		qmax := c.BV(mask64(w)/cv, w)
+		def = c.And(eq, c.Ult(r, y), c.Ule(q, qmax))
+	}
+	e.Hints = append(e.Hints, def)
+	e.divCache[key] = [2]smt.Term{q, r}
+	return q, r, true
+}
+
+func mask64(w int) uint64 {
+	if w >= 64 {
+		return ^uint64(0)
+	}
+	return (uint64(1) << uint(w)) - 1
 }
 
 // udivHint builds x/y (or x%y) and records the implied fact q*y+r=x ∧ r<y as a hint.
